@@ -167,6 +167,7 @@ func genUnsupportedId() *rapid.Generator[string] {
 
 func TestC18(t *testing.T) {
 	s := newSuite("C18")
+	compiledEvery = 0
 	r := s.r
 	defer r.Flush()
 	r.Rule("identifier strings generated from plonky2's Debug formats: (supported) the 14 implemented gate types with parameters over their ranges, each resolved 200 times (Go randomises map iteration per range loop): every resolution must return a gate whose Id() states exactly the identifier's parameters, all resolutions must be deeply equal, and the resolved gate's constraint values on a random row must equal the reference gate built from the stated parameters; (unsupported) LookupGate, LookupTableGate, U32ArithmeticGate, U32AddManyGate, U32SubtractionGate, ComparisonGate, U32RangeCheckGate, and RandomAccess/Exponentiation/CosetInterpolation gates over extension degree D != 2: every one of 200 resolutions must be refused; common circuit data with hiding enabled must be refused by the reader.  Non-trivial = every case; distinct = identifier.")
